@@ -192,6 +192,38 @@ def _ends_nl(e: ast.AST, ok_vars: Set[str]) -> bool:
     return False
 
 
+def _literal_tail(e: ast.AST) -> bool:
+    """does the expression END in a string literal (so that 'no trailing newline' is visible in the text)?"""
+    if isinstance(e, ast.Constant) and isinstance(e.value, str):
+        return True
+    if isinstance(e, ast.JoinedStr):
+        return bool(e.values) and isinstance(e.values[-1], ast.Constant)
+    if isinstance(e, ast.BinOp) and isinstance(e.op, ast.Add):
+        return _literal_tail(e.right)
+    if isinstance(e, ast.IfExp):
+        return _literal_tail(e.body) and _literal_tail(e.orelse)
+    return False
+
+
+def _surely_no_newline(mod: Mod, fn: ast.AST, e: ast.AST) -> bool:
+    """the tail of the expression is a repr() or a .strip()ped text: it cannot end in a newline"""
+    if isinstance(e, ast.BinOp) and isinstance(e.op, ast.Add):
+        return _surely_no_newline(mod, fn, e.right)
+    if isinstance(e, ast.JoinedStr) and e.values:
+        last = e.values[-1]
+        if isinstance(last, ast.FormattedValue):
+            return last.conversion == ord("r") or _surely_no_newline(mod, fn, last.value)
+        return False
+    if isinstance(e, ast.Call) and (norm(e.func) == "repr" or (isinstance(e.func, ast.Attribute) and e.func.attr in ("strip", "rstrip"))):
+        return True
+    if isinstance(e, ast.Attribute) and e.attr == "linetext":
+        return True  # Frame.linetext is documented (and implemented) as stripped text without a newline
+    if isinstance(e, ast.Name):
+        srcs = [a.value for a in ast.walk(fn) if isinstance(a, ast.Assign) and len(a.targets) == 1 and norm(a.targets[0]) == e.id]
+        return bool(srcs) and all(_surely_no_newline(mod, fn, v) for v in srcs)
+    return False
+
+
 def fmt5(ctx: Ctx) -> None:
     mod = ctx.P.mod("_types")
     n = 0
@@ -215,7 +247,9 @@ def fmt5(ctx: Ctx) -> None:
                 n += 1
                 if _ends_nl(e, okv):
                     ctx.R.ok("FMT-5", f"{q}: {norm(e)[:60]}", "newline-terminated")
-                elif isinstance(e, (ast.Name, ast.Call, ast.Attribute, ast.Subscript)):
+                elif _surely_no_newline(mod, fn, e):
+                    ctx.R.fail("FMT-5", mod, s, f"{q}: a produced line does not end in a newline: str() glues it to the next line", construct=f"{q}: {norm(e)[:80]}")
+                elif not _literal_tail(e):
                     ctx.R.undecided("FMT-5", f"{q}: cannot see whether `{norm(e)[:50]}` ends in a newline")
                 else:
                     ctx.R.fail("FMT-5", mod, s, f"{q}: a produced line does not end in a newline: str() glues it to the next line", construct=f"{q}: {norm(e)[:80]}")
@@ -535,6 +569,12 @@ def mode_rules(ctx: Ctx) -> None:
                 ctx.R.fail("MODE-1", m, s, "the mode switch is written without holding _trickery_lock: a concurrent self-test can overwrite an explicit set_trickery_enabled()")
             else:
                 ctx.R.ok("MODE-1", f"{key[1]}: {norm(s)[:60]}", "under _trickery_lock")
+    # the switch belongs to the user: stackscope itself never flips it as a side effect of an extraction
+    for m in ctx.P.analysed_mods():
+        for c_ in ast.walk(m.tree):
+            if isinstance(c_, ast.Call) and norm(c_.func).split(".")[-1] == "set_trickery_enabled":
+                ctx.R.fail("MODE-1", m, c_, f"{m.name}.{m.qualname_of(c_)} calls set_trickery_enabled: an extraction silently changes the global analysis mode for every later extraction on all threads "
+                           "(two extractions of an unchanged target no longer compare equal)", construct=f"internal call {norm(c_)}")
     if set(writers) != allowed:
         raise AnalysisError(f"MODE-1: writers of the switch are {sorted(writers)} (2 confirmed by hand)")
     # MODE-2
